@@ -105,7 +105,7 @@ DEFAULT_YEARLY = [column("AKTUELL", "%s", 12)]
 DEFAULT_CROP = [column("Crop", "%s", 8), column("HarvestYear", "%d", 6), column("HarvestDOY", "%d", 6)]
 
 
-def write_project(root, pname, cfg, rotation, daily=None, yearly=None, crop=None):
+def write_project(root, pname, cfg, rotation, daily=None, yearly=None, crop=None, raw_confs=None):
     """rotation: [(crop, sow date|None, harvest date)]; the first entry is the previous crop (harvest = start)"""
     pdir = os.path.join(root, "project", pname)
     os.makedirs(pdir)
@@ -128,9 +128,10 @@ def write_project(root, pname, cfg, rotation, daily=None, yearly=None, crop=None
             f.write("%-9s %-3s %s %s %s %s 0 \n" % (FIELD, crp, de(sow) if sow else "--------", de(har),
                                                      "080" if i == 0 else "000", "050" if i == 0 else "000"))
         f.write("end\n")
-    open(os.path.join(pdir, "dailyout_conf.yml"), "w").write(out_conf_text(daily or DEFAULT_DAILY))
-    open(os.path.join(pdir, "yearlyout_conf.yml"), "w").write(out_conf_text(yearly or DEFAULT_YEARLY))
-    open(os.path.join(pdir, "cropout_conf.yml"), "w").write(out_conf_text(crop or DEFAULT_CROP))
+    raw_confs = raw_confs or {}
+    open(os.path.join(pdir, "dailyout_conf.yml"), "w").write(raw_confs.get("daily") or out_conf_text(daily or DEFAULT_DAILY))
+    open(os.path.join(pdir, "yearlyout_conf.yml"), "w").write(raw_confs.get("yearly") or out_conf_text(yearly or DEFAULT_YEARLY))
+    open(os.path.join(pdir, "cropout_conf.yml"), "w").write(raw_confs.get("crop") or out_conf_text(crop or DEFAULT_CROP))
     return pdir
 
 
@@ -221,13 +222,19 @@ def put_sentinel(series, d, col, none="-99.9"):
 
 
 # ---------------------------------------------------------------------------------------------
-def run_lines(ctx, root, lines, probe, tag, timeout=1800):
+def run_lines(ctx, root, lines, probe, tag, timeout=1800, vars_spec=None):
     """runs batch lines in-process (harness c04); returns (rc, [run dict per line], stderr)"""
     vh = ctx.harness()
     lf = os.path.join(root, "lines_%s.txt" % tag)
     with open(lf, "w") as f:
         f.write("\n".join(lines) + "\n")
-    p = subprocess.run([vh, "c04", "-work", root, "-lines", lf] + (["-probe"] if probe else []),
+    extra = []
+    if vars_spec is not None:
+        vf = os.path.join(root, "vars_%s.json" % tag)
+        with open(vf, "w") as f:
+            json.dump(vars_spec, f)
+        extra = ["-vars", vf]
+    p = subprocess.run([vh, "c04", "-work", root, "-lines", lf] + (["-probe"] if probe else []) + extra,
                        stdout=subprocess.PIPE, stderr=subprocess.PIPE, text=True, timeout=timeout, cwd=root)
     runs = [json.loads(l) for l in p.stdout.split("\n") if l.startswith("{")]
     return p.returncode, runs, p.stderr
